@@ -408,6 +408,12 @@ def corrEv (e : Json) : R Corr.Ev := do
   | "peerExec" => return .peerExec a
   | x => throw s!"bad corr event {x}"
 
+/-- The `isErr` flag of the first logged receive of attempt `a` in the rest of the trace. -/
+def firstRecv : List Corr.Ev → Nat → Option Bool
+  | [], _ => none
+  | .recv b isErr :: rest, a => if b = a then some isErr else firstRecv rest a
+  | _ :: rest, a => firstRecv rest a
+
 /-- Replay of one endpoint's correlation events.  Sends into a channel are logged when they begin and
     receives after they complete, but two log entries written by different goroutines around one
     rendezvous can come in either order.  When an event is refused the replayer therefore tries the
@@ -420,6 +426,22 @@ def replayCorr (es : List Corr.Ev) : Corr.St × Option Nat × Nat :=
     | e :: rest =>
       if early.contains e then go s (early.erase e) taus (i + 1) rest
       else
+        -- the sweep's send meets an attempt whose response the executor is just delivering: if the caller's
+        -- next logged receive is the genuine response, the executor's send and that receive came first
+        -- (the receive is logged late) and the sweep's send then found the mailbox empty again
+        let lateRecv : Option Corr.St :=
+          match e with
+          | .cifSend id a true =>
+            if s.feSending == some (id, a) && firstRecv rest a == some false then
+              ((Corr.step? s .deliverDone).bind (fun s1 => Corr.step? s1 (.recv a false))).bind (fun s2 => Corr.step? s2 e)
+            else none
+          | _ => none
+        match lateRecv with
+        | some s3 =>
+          (match e with
+           | .cifSend _ a _ => go s3 (Corr.Ev.recv a false :: early) (taus + 1) (i + 1) rest
+           | _ => go s3 early taus (i + 1) rest)
+        | none =>
         match Corr.step? s e with
         | some s' => go s' early taus (i + 1) rest
         | none =>
